@@ -20,7 +20,8 @@ for p in props:
         na.append({"property_id": pid, "reason": na_reasons.get(pid, "check not built yet (work in progress; see DESIGN.md section 4 for the plan)")})
         continue
     m = importlib.import_module("props." + pid)
-    if not getattr(m, "READY", False):
+    claimed = json.load(open(os.path.join(HERE, "claimed.json")))
+    if not getattr(m, "READY", False) or pid not in claimed:
         na.append({"property_id": pid, "reason": "check under construction (module present but not yet validated; see DESIGN.md section 4)"})
         continue
     checks.append({
